@@ -591,3 +591,63 @@ Proof.
           | intros Hc; vm_compute in Hc; discriminate
           | intros _; split; [eexists _, _, _; reflexivity | lia] ].
 Qed.
+
+(* ====================== the C16 replay scheduler only produces runs of [step] ====================== *)
+From LV Require Import model.FetcherSim.
+
+Definition fsim_ok (c : cfg) (s : fsim) : Prop :=
+  fs_st s = fst (run true c (init 0%Z) (rev (fs_tr s))) /\ answers_sublist (fs_tr s).
+
+Lemma run_snoc c tr st now ev :
+  fst (run true c st (tr ++ [(now, ev)])) = fst (step true c (fst (run true c st tr)) now ev).
+Proof. rewrite run_app_fst. apply run_single. Qed.
+
+Lemma filter_sub {A} (f : A -> bool) l x : In x (filter f l) -> In x l.
+Proof. intros H. apply filter_In in H. tauto. Qed.
+
+Lemma fire_passes_ok c fuel T : forall s, fsim_ok c s -> fsim_ok c (fire_passes c fuel s T).
+Proof.
+  induction fuel as [|f IH]; intros s H; cbn [fire_passes]; [exact H|].
+  destruct (timer_due (fs_st s)) as [due|]; [|exact H].
+  destruct (due <=? T)%Z; [|exact H].
+  destruct (step true c (fs_st s) due ETick) as [st1 o1] eqn:E1.
+  destruct (step true c st1 due (ETimer (interesting s (keys_now st1)) [] [])) as [st2 rq] eqn:E2.
+  apply IH. destruct H as [H1 H2]. split; cbn [fs_st fs_tr].
+  - cbn [rev]. rewrite run_snoc, run_snoc, <- H1, E1. cbn [fst]. now rewrite E2.
+  - intros now p i a int su sc [E|[E|Hin]]; [discriminate | discriminate | eapply H2; eauto].
+Qed.
+
+Lemma sim_fop_ok c fuel s T op : fsim_ok c s -> fsim_ok c (sim_fop c fuel s T op).
+Proof.
+  intros H. unfold sim_fop. pose proof (fire_passes_ok c fuel T s H) as H'.
+  set (s1 := fire_passes c fuel s T) in *. destruct H' as [H1 H2].
+  destruct op as [peer ids atime | ids | id b | b | ].
+  - destruct (step true c (fs_st s1) T (ENotify peer ids atime (interesting s1 ids) (fs_susp s1) [])) as [st1 rq] eqn:E.
+    split; cbn [fs_st fs_tr].
+    + cbn [rev]. rewrite run_snoc, <- H1, E. reflexivity.
+    + intros now p i a int su sc [E'|Hin]; [|eapply H2; eauto]. inversion E'; subst.
+      intros x Hx. unfold interesting in Hx. eapply filter_sub; eauto.
+  - destruct (step true c (fs_st s1) T (EReceived ids)) as [st1 rq] eqn:E. split; cbn [fs_st fs_tr].
+    + cbn [rev]. rewrite run_snoc, <- H1, E. reflexivity.
+    + intros now p i a int su sc [E'|Hin]; [discriminate | eapply H2; eauto].
+  - destruct b; split; assumption.
+  - split; assumption.
+  - split; assumption.
+Qed.
+
+(* the state the C16 replay scheduler ends in is the state [run] reaches on the event trace it chose,
+   and on that trace OnlyInterested always answers with ids of the batch: C16_safety applies to it *)
+Lemma fsim_ok_init c : fsim_ok c (mkFS (init 0%Z) [] false [] []).
+Proof. split; [reflexivity | intros now p i a int su sc0 []]. Qed.
+
+Lemma sim_fold_ok c fuel sc : forall s, fsim_ok c s ->
+  fsim_ok c (fold_left (fun s x => sim_fop c fuel s (fst x) (snd x)) sc s).
+Proof. induction sc as [|[T op] sc IH]; intros s Hs; cbn [fold_left]; [exact Hs | apply IH, sim_fop_ok, Hs]. Qed.
+
+Theorem sim_fetcher_is_run c fuel sc :
+  let s := sim_fetcher c fuel sc in
+  fs_st s = fst (run true c (init 0%Z) (rev (fs_tr s))) /\ answers_sublist (rev (fs_tr s)).
+Proof.
+  destruct (sim_fold_ok c fuel sc _ (fsim_ok_init c)) as [H1 H2]. split; [exact H1|].
+  intros now p i a int su sc0 Hin. apply in_rev in Hin. eapply H2; eauto.
+Qed.
